@@ -251,6 +251,8 @@ def check_mo(res, case, sr, model_ok):
     cls = "L=default" if case["L"] < 0 else ("L=%d" % case["L"])
     res.count(cls)
     res.count("append" if append else "trunc")
+    res.count("routing=%s" % case.get("routing", "NONE"))
+    res.count("comm-buffer-kb=%s" % case.get("buffer_kb"))
     for f in feats:
         res.count(f)
     if feats & {"multi-origin", "old+append", "old+trunc"}:
